@@ -144,6 +144,11 @@ def _ikind(index):
     return "other"
 
 
+def _icls(kind):
+    """index class as far as repartition(npartitions) is concerned: numeric/datetime divisions are interpolated"""
+    return "numeric-or-datetime" if kind in ("int", "float", "datetime") else "other"
+
+
 def _nudge(v, kind, up):
     """a value just above / below v in the order of the index kind"""
     import pandas as pd
@@ -205,7 +210,7 @@ def _mp_ident(df):
 
 
 # ----------------------------------------------------------------------------- steps
-def _apply(step, ddf, cur, rng):
+def _apply(step, ddf, cur, rng, gparts=()):
     """-> (new collection, variant string).  Raises _Skip when the step does not apply."""
     import numpy as np
     import pandas as pd
@@ -229,10 +234,10 @@ def _apply(step, ddf, cur, rng):
             if form == "both":
                 if b < a:
                     a, b, ra, rb = b, a, rb, ra
-                return ddf.loc[a:b], "slice-both:%s" % ("known" if known else "unknown")
+                return ddf.loc[a:b], "slice"
             if form == "lo":
-                return ddf.loc[a:], "slice-from:%s" % ("known" if known else "unknown")
-            return ddf.loc[:b], "slice-to:%s" % ("known" if known else "unknown")
+                return ddf.loc[a:], "slice"
+            return ddf.loc[:b], "slice"
         if not known:
             raise _Skip("list/label loc needs known divisions")
         labels = [_plain(v) for v in pd.unique(cur.index)]
@@ -242,7 +247,7 @@ def _apply(step, ddf, cur, rng):
         pick = rng.sample(labels, k)
         if rng.random() < 0.5:
             pick.sort()
-            return ddf.loc[pick], "list-sorted"
+            return ddf.loc[pick], "list"
         return ddf.loc[pick], "list"
 
     if op == "repartition":
@@ -252,8 +257,7 @@ def _apply(step, ddf, cur, rng):
                             rng.randint(1, 12)))
             k = max(1, k)
             rel = "fewer" if k < ddf.npartitions else ("same" if k == ddf.npartitions else "more")
-            return ddf.repartition(npartitions=k), "npartitions:%s:%s-index%s" % (
-                rel, kind, "" if known else ":unknown")
+            return ddf.repartition(npartitions=k), "npartitions:%s:%s-index" % (rel, _icls(kind))
         if not known or kind == "other":
             raise _Skip("repartition(divisions/freq) needs known divisions")
         if form == "freq":
@@ -296,9 +300,9 @@ def _apply(step, ddf, cur, rng):
         if form == "sort-false":
             return ddf.set_index(col, sort=False), "sort=False"
         if form == "plain":
-            return ddf.set_index(col, drop=rng.random() < 0.8), "plain:%s" % ck
+            return ddf.set_index(col, drop=rng.random() < 0.8), "plain"
         if form == "npartitions":
-            return ddf.set_index(col, npartitions=rng.randint(1, 6)), "npartitions:%s" % ck
+            return ddf.set_index(col, npartitions=rng.randint(1, 6)), "npartitions"
         if not len(cur):
             raise _Skip("no data for divisions")
         uniq = sorted(_plain(v) for v in pd.unique(cur[col]))
@@ -309,20 +313,21 @@ def _apply(step, ddf, cur, rng):
         inner = sorted(set(rng.sample(uniq, min(len(uniq), rng.randint(0, 4)))) - {lo, hi})
         if rng.random() < 0.4:
             lo, hi = _nudge(lo, ck, False), _nudge(hi, ck, True)
-        return ddf.set_index(col, divisions=[lo] + inner + [hi]), "divisions:%s" % ck
+        return ddf.set_index(col, divisions=[lo] + inner + [hi]), "divisions"
 
     if op == "filter":
         form = rng.choice(("column", "index", "notnull"))
         if not is_frame:
-            if form == "index" and len(cur) and kind != "other":
+            if form == "index" and len(cur) and kind != "other" and known:
                 v, _ = _point(rng, cur, divs, kind)
-                return ddf[ddf.index >= v], "index"
+                return ddf[ddf.index.to_series() >= v], "index"
             return ddf[ddf.notnull()], "notnull"
         if form == "column" and "a" in cols:
             return ddf[ddf["a"] > rng.randint(-1, 3)], "column"
-        if form == "index" and len(cur) and kind != "other":
+        if form == "index" and len(cur) and kind != "other" and known:
             v, _ = _point(rng, cur, divs, kind)
-            return (ddf[ddf.index < v] if rng.random() < 0.5 else ddf[ddf.index >= v]), "index"
+            ser = ddf.index.to_series()
+            return (ddf[ser < v] if rng.random() < 0.5 else ddf[ser >= v]), "index"
         if "c" in cols:
             return ddf[ddf["c"].notnull()], "notnull"
         raise _Skip("no column to filter on")
@@ -372,15 +377,17 @@ def _apply(step, ddf, cur, rng):
         dother = dd.from_pandas(other, npartitions=rng.randint(1, 4), sort=omono)
         how = rng.choice(("inner", "left", "outer", "right"))
         form = rng.choice(("merge", "join", "concat1"))
-        tag = "%s:%s" % ("both-known" if known and dother.known_divisions else "some-unknown", how)
+        unk = "" if known and dother.known_divisions else ":some-unknown"
         if form == "merge":
-            return ddf.merge(dother, left_index=True, right_index=True, how=how), "merge:" + tag
+            return ddf.merge(dother, left_index=True, right_index=True, how=how), "merge:%s%s" % (how, unk)
         if form == "join":
-            return ddf.join(dother, how=how), "join:" + tag
+            return ddf.join(dother, how=how), "join:%s%s" % (how, unk)
         if cur.index.has_duplicates:
             raise _Skip("concat axis=1 with duplicate labels")
+        if unk:
+            raise _Skip("concat(axis=1) with unknown divisions is documented to raise")
         j = "inner" if how == "inner" else "outer"
-        return dd.concat([ddf, dother], axis=1, join=j), "concat-axis1:%s:%s" % (tag.split(":")[0], j)
+        return dd.concat([ddf, dother], axis=1, join=j), "concat-axis1:%s" % j
 
     if op == "concat0":
         if not is_frame or not len(cur) or kind == "other" or not mono:
@@ -442,6 +449,8 @@ def _apply(step, ddf, cur, rng):
 
     if op == "window":
         form = rng.choice(("rolling", "cumsum", "cummax", "shift", "shift-neg", "diff", "ffill"))
+        if any(len(p) == 0 for p in gparts):
+            raise _Skip("window/cumulative ops over empty partitions are C46's subject")
         tgt = ddf
         if is_frame:
             if not num:
@@ -474,7 +483,7 @@ class _Stop(Exception):
 
 
 def _observe(ctx, ddf, stage, state):
-    """Runs the monitor on one stage.  Returns the concatenated pandas value of the stage (graph view).
+    """Runs the monitor on one stage.  Returns (concatenated pandas value of the stage, graph partitions).
     stage: label prefix '<op>:<variant>'."""
     import dask
     import pandas as pd
@@ -489,7 +498,7 @@ def _observe(ctx, ddf, stage, state):
         ctx.count("unsupported_steps")
         raise _Skip("unsupported: %s" % e)
     except Exception as e:  # noqa: BLE001
-        ctx.exception(e, prefix="%s:divisions-attribute" % stage, **state)
+        ctx.exception(e, prefix="%s:divisions-attribute" % _where(ddf, stage, False), stage=stage, **state)
         raise _Stop()
     try:
         gparts = list(dask.compute(*ddf.to_delayed(), scheduler="sync"))
@@ -497,7 +506,8 @@ def _observe(ctx, ddf, stage, state):
         ctx.count("unsupported_steps")
         raise _Skip("unsupported: %s" % e)
     except Exception as e:  # noqa: BLE001
-        ctx.exception(e, prefix="%s:compute" % stage, divisions=[repr(d) for d in divs][:12], **state)
+        ctx.exception(e, prefix="%s:compute" % _where(ddf, stage, False), stage=stage,
+                      divisions=[repr(d) for d in divs][:12], **state)
         raise _Stop()
     if not all(isinstance(p, (pd.DataFrame, pd.Series)) for p in gparts):
         raise _Skip("not a frame")
@@ -505,7 +515,7 @@ def _observe(ctx, ddf, stage, state):
     if not known:
         ctx.count("stages_unknown_divisions")
         ctx.op("unknown-after:" + stage.split(":")[0])
-        return cur
+        return cur, gparts
     ctx.count("stages_known_divisions")
     ctx.op("known-after:" + stage.split(":")[0])
     ctx.distinct("known_stage_variants", stage)
@@ -513,38 +523,111 @@ def _observe(ctx, ddf, stage, state):
         state["nontrivial"] = True
     ctx.count("partitions_checked", len(gparts))
     shown = [repr(d) for d in divs][:14]
+    pshow = [[repr(x) for x in p.index[:8]] for p in gparts][:10]
     # ---- graph view
-    if len(gparts) != len(divs) - 1 and npart == len(divs) - 1:
-        ctx.violation("%s:graph:partition-count-vs-divisions" % stage,
-                      "graph has %d partitions, divisions %s announce %d" % (len(gparts), shown, len(divs) - 1),
-                      divisions=shown, parts=[[repr(v) for v in p.index[:8]] for p in gparts][:10], **state)
-        raise _Stop()
     if npart != len(divs) - 1:
-        v = ("npartitions-vs-divisions", "npartitions=%d but len(divisions)-1=%d (graph has %d partitions)"
-             % (npart, len(divs) - 1, len(gparts)))
-    else:
-        v = _bounds(divs, gparts)
+        ctx.violation("%s:graph:npartitions-vs-divisions" % stage,
+                      "npartitions=%d but len(divisions)-1=%d (graph has %d partitions)" % (npart, len(divs) - 1, len(gparts)),
+                      divisions=shown, parts=pshow, **state)
+        raise _Stop()
+    if len(gparts) != len(divs) - 1:
+        ctx.violation("%s:graph:partition-count-vs-divisions" % _where(ddf, stage, True),
+                      "graph has %d partitions, divisions %s announce %d (stage %s)"
+                      % (len(gparts), shown, len(divs) - 1, stage), stage=stage, divisions=shown, parts=pshow, **state)
+        raise _Stop()
+    v = _bounds(divs, gparts)
     if v:
-        ctx.violation("%s:graph:%s" % (stage, v[0]), v[1], divisions=shown,
-                      parts=[[repr(x) for x in p.index[:8]] for p in gparts][:10], **state)
+        ctx.violation("%s:graph:%s" % (_where(ddf, stage, False), v[0]), v[1], stage=stage, divisions=shown,
+                      parts=pshow, **state)
         raise _Stop()
     # ---- accessor view (the shared monitor; computes ddf.partitions[i])
     if state.get("accessor_tainted"):
-        return cur
+        return cur, gparts
     ctx.count("accessor_views")
     try:
         v = frames.divisions_violation(ddf)
     except NotImplementedError:
-        return cur
+        return cur, gparts
     except Exception as e:  # noqa: BLE001
         ctx.exception(e, prefix="%s:partitions-accessor" % stage, divisions=shown, **state)
         state["accessor_tainted"] = True
-        return cur
+        return cur, gparts
     if v:
-        ctx.violation("%s:partitions-accessor:%s" % (stage, v[0]), v[1], divisions=shown,
-                      graph_parts=[[repr(x) for x in p.index[:8]] for p in gparts][:10], **state)
+        sym = "index-outside-division-interval" if v[0] in ("index-below-division", "index-above-division") else v[0]
+        ctx.violation("%s:partitions-accessor:%s" % (stage, sym), v[1], divisions=shown, graph_parts=pshow, **state)
         state["accessor_tainted"] = True
-    return cur
+    return cur, gparts
+
+
+_DEFINERS = {"SetIndex", "Concat", "Repartition", "Merge", "JoinRecursive", "FromPandas", "LocSlice", "LocList",
+             "LocElement", "SortValues", "ResetIndex", "SetIndexBlockwise", "FromMap", "RepartitionDivisions",
+             "RepartitionToFewer", "RepartitionToMore", "RepartitionFreq", "MapPartitions", "MapOverlap"}
+
+
+def _desc(e):
+    name = type(e).__name__
+    try:
+        if name == "Concat":
+            return "Concat[axis=%s]" % e.axis
+        if name == "Repartition":
+            return "Repartition[%s]" % ("npartitions" if e.operand("new_partitions") is not None else
+                                        "divisions" if e.operand("new_divisions") is not None else "other")
+        if name == "SetIndex":
+            return "SetIndex[%s]" % ("divisions" if e.operand("user_divisions") is not None else "quantiles")
+    except Exception:  # noqa: BLE001
+        pass
+    return name
+
+
+def _where(ddf, stage, by_count):
+    """Mechanism attribution for graph-view findings.  When the optimiser/lowering changes the partitioning
+    that some sub-expression reports, the finding belongs to that rewrite and not to the step that happened to
+    be the last one: return 'optimize:<innermost such sub-expression>[-over-<partition-defining input>]'.
+    by_count: look for a changed partition count, else for changed (known) divisions.  Falls back to the
+    stage label when no sub-expression is affected."""
+    seen = set()
+
+    def differs(e):
+        o = e.optimize(fuse=False)
+        if by_count:
+            return o.npartitions != e.npartitions
+        d = e.divisions
+        if d[0] is None:
+            return False
+        return tuple(o.divisions) != tuple(d)
+
+    def walk(e):
+        for d in e.dependencies():
+            r = walk(d)
+            if r is not None:
+                return r
+        if e._name in seen:
+            return None
+        seen.add(e._name)
+        try:
+            if differs(e):
+                return e
+        except Exception:  # noqa: BLE001
+            return None
+        return None
+
+    try:
+        e = walk(ddf.expr)
+        if e is None:
+            return stage
+        top = _desc(e)
+        n = 0
+        while type(e).__name__ not in _DEFINERS and hasattr(e, "frame") and n < 8:
+            try:
+                e = e.frame
+            except Exception:  # noqa: BLE001
+                break
+            if not hasattr(e, "dependencies"):
+                break
+            n += 1
+        return "optimize:" + (top if n == 0 else "%s-over-%s" % (top, _desc(e)))
+    except Exception:  # noqa: BLE001
+        return stage
 
 
 def _bounds(div, parts):
@@ -587,7 +670,7 @@ def _run_exhaustive(case, ctx):
         return
     for k in range(1, 6):
         rel = "fewer" if k < ddf.npartitions else ("same" if k == ddf.npartitions else "more")
-        stage = "repartition:npartitions:%s:%s-index" % (rel, vt)
+        stage = "repartition:npartitions:%s:%s-index" % (rel, _icls(vt))
         st2 = dict(state, repartition=k, accessor_tainted=st.get("accessor_tainted", False))
         ctx.op("repartition")
         try:
@@ -640,11 +723,11 @@ def _run_random(case, ctx, dd):
         return
     trail = []
     try:
-        cur = _observe(ctx, ddf, stage, state)
+        cur, gparts = _observe(ctx, ddf, stage, state)
         for step in case["steps"]:
             rng = random.Random(step["r"])
             try:
-                new, variant = _apply(step, ddf, cur, rng)
+                new, variant = _apply(step, ddf, cur, rng, gparts)
             except _Skip as s:
                 ctx.count("steps_not_applicable")
                 continue
@@ -664,7 +747,7 @@ def _run_random(case, ctx, dd):
             ctx.op(step["op"])
             state["pipeline"].append(stage)
             try:
-                cur = _observe(ctx, new, stage, state)
+                cur, gparts = _observe(ctx, new, stage, state)
             except _Skip:
                 state["pipeline"].pop()
                 continue
